@@ -36,3 +36,16 @@ Proof.
   injection H as <-. cbn. repeat split; reflexivity.
 Qed.
 Print Assumptions C05_legacy_compose_uses_id_decoder.
+
+(* composeinfo, whole document: whatever document (of whatever version) an object was loaded from, once it is written the
+   re-loaded object is the same (path tables as written) and the second write is the same document - conversion happens once.
+   Hypotheses as in C01: the loaded object is in the reader's normal form and its UIDs are pairwise distinct. *)
+From PM Require Import Model.ComposeInfo Proofs.ForestFlat Proofs.ForestRoundtrip Proofs.CiRoundtrip.
+Theorem C05_composeinfo_conversion_happens_once :
+  forall doc x doc', load_ci doc = Ok x -> ci_normal x -> NoDup (forest_uids (ci_variants x)) -> dump_ci x = Ok doc' ->
+  load_ci doc' = Ok (wp_ci x) /\ dump_ci (wp_ci x) = Ok doc'.
+Proof.
+  intros doc x doc' _ Hn Hd Hw. split; [exact (ci_roundtrip x doc' Hn Hd Hw)|].
+  rewrite ci_second_write; [exact Hw|]. destruct Hn as (_ & _ & (Hf & _)). exact Hf.
+Qed.
+Print Assumptions C05_composeinfo_conversion_happens_once.
